@@ -768,6 +768,9 @@ func (s *scen) Close() {
 }
 
 func newScenario(cfg []string) (hx.Handler, string) {
+	if len(cfg) > 1 && cfg[1] == "pw" {
+		return newPWScenario(cfg)
+	}
 	hx.FreezeAt(0)
 	sv, _ := hx.KV(cfg, "stack")
 	specs, err := parseStack(sv)
